@@ -124,41 +124,45 @@ class Catalogue:
             run.ok(rule, "model conformance: edge_increment_x = {LeftEdge: 0, Half: 0.5}", "%s:%d" % (self.file, it["pos"][0]))
         else:
             bad("CircleArt::edge_increment_x", None, "arms are %r" % vals)
-        it = src_fn(run, "map/circle_map.rs", "width", impl_self="CircleArt")
+        # CircleArt::width, path by path (any of match / if let / early return): on the path of each variant of
+        # start_edge the result is (bounds.1.x - bounds.0.x) as f32 plus the model's increment for that variant
+        from .mirlib import paths as mir_paths
         okw = False
-        if it:
-            txt = {}
-            m = [s for s in it["body"]["stmts"] if s["k"] == "expr_stmt"]
-            m = m[-1]["expr"] if m else {}
-            for arm in m.get("arms", []):
-                b = arm["body"]
-                name = arm["pat"].get("path", "").split("::")[-1]
-                # (hi.x - lo.x) as f32 [+ 1.0]
-                plus = 0.0
-                if b.get("k") == "binary" and b["op"] == "+" and b["r"].get("ty") == "float":
-                    plus = float(b["r"]["v"])
-                    b = b["l"]
-                if b.get("k") == "cast" and b["e"].get("k") == "binary" and b["e"]["op"] == "-":
-                    l, r = b["e"]["l"], b["e"]["r"]
-                    if l.get("k") == "field" and l["member"] == "x" and r.get("k") == "field" and r["member"] == "x" and \
-                            l["base"].get("path") == "hi" and r["base"].get("path") == "lo":
-                        txt[name] = plus
-            okw = txt == {"LeftEdge": 1.0, "Half": 0.0}
-            # hi/lo come from the bounds of the drawing's cell buffer
-            calls = []
-            def rec(n):
-                if isinstance(n, dict):
-                    if n.get("k") == "method":
-                        calls.append(n["method"])
-                    if n.get("k") == "call" and n["func"].get("k") == "path":
-                        calls.append(n["func"]["path"])
-                    for v in n.values():
-                        rec(v)
-                elif isinstance(n, list):
-                    for v in n:
-                        rec(v)
-            rec(it["body"])
-            okw = okw and "bounds" in calls and "CellBuffer::from" in calls
+        wp = one("circle_map::CircleArt::width")
+        hadt = prog.adts.get("svgbob::map::circle_map::Horizontal")
+        it = {"pos": [prog.bodies[wp]["span"]["line"]]} if wp else None
+        if wp and hadt:
+            names = [v_["name"] for v_ in hadt["variants"]]
+            ps = mir_paths(prog, wp) or []
+            seen_v = {}
+            for conds, ret in ps:
+                var = None
+                for c, tk in conds:
+                    c = strip(c)
+                    if c[0] == "discr" and strip(c[1])[0] == "param" and strip(c[1])[2][-1:] == ("start_edge",):
+                        if isinstance(tk, tuple):
+                            rest = [i for i in range(len(names)) if i not in tk[1]]
+                            var = names[rest[0]] if len(rest) == 1 else None
+                        elif 0 <= tk < len(names):
+                            var = names[tk]
+                if var is None:
+                    seen_v["?"] = None
+                    continue
+                ts = [strip(t) for t in terms(strip(ret))]
+                plus = sum(float(t[2]) for t in ts if t[0] == "const")
+                rest = [t for t in ts if t[0] != "const"]
+                good = len(rest) == 1
+                if good:
+                    d = uncast(rest[0])
+                    good = d[0] == "bin" and d[1] == "Sub"
+                    if good:
+                        hi, lo = strip(d[2]), strip(d[3])
+                        from_bounds = lambda z: z[0] == "field" and mentions(z, lambda y: y[0] == "call" and y[1].endswith("CellBuffer::bounds")) and \
+                            mentions(z, lambda y: y[0] == "call" and re.search(r"CellBuffer as core::convert::From<&str>>::from$", y[1])) and \
+                            mentions(z, lambda y: y[0] == "param" and y[2][-1:] == ("ascii_art",))
+                        good = from_bounds(hi) and from_bounds(lo) and tuple(hi[2])[-2:] == ("1", "x") and tuple(lo[2])[-2:] == ("0", "x")
+                seen_v[var] = plus if good else None
+            okw = seen_v == {"LeftEdge": 1.0, "Half": 0.0}
         if okw:
             run.ok(rule, "model conformance: CircleArt::width = columns spanned - 1 (+1 when flush with the left edge)", "%s:%d" % (self.file, it["pos"][0]))
         else:
